@@ -119,7 +119,7 @@ Blank(h) ==
   /\ qclosed' = [q \in DOMAIN h.queues |-> "open"]
   /\ lastExitAt' = 0 /\ lastDeqAt' = 0 /\ rr' = 1 /\ rrPrev' = 1
   /\ crashed' = FALSE /\ raced' = FALSE /\ pcancel' = FALSE /\ overlap' = FALSE /\ ref' = (IF h.nobind THEN "initiated" ELSE "running") /\ started' = ~h.nobind
-  /\ ad' = [pending |-> <<>>, unacked |-> {}, acked |-> {}, issued |-> {}, badack |-> 0, earlyack |-> 0, enq |-> {}, lost |-> {}, purged |-> {}, notified |-> 0]
+  /\ ad' = [pending |-> <<>>, unacked |-> {}, acked |-> {}, issued |-> {}, badack |-> 0, earlyack |-> 0, enq |-> {}, lost |-> {}, purged |-> {}, notified |-> 0, unann |-> {}]
 
 Init ==
   /\ l = 1 /\ E = NoHdr /\ hdr = NoHdr
@@ -128,7 +128,7 @@ Init ==
   /\ pend = <<>> /\ R = NoCall /\ ctlPending = 0 /\ ws = "initiated" /\ epoch = "open" /\ pauseStarts = 0
   /\ concNow = {1} /\ concMax = 1 /\ concSince = <<>> /\ consOf = <<>> /\ qclosed = <<>> /\ lastExitAt = 0 /\ lastDeqAt = 0 /\ rr = 1 /\ rrPrev = 1
   /\ crashed = FALSE /\ raced = FALSE /\ pcancel = FALSE /\ overlap = FALSE /\ ref = "initiated" /\ started = FALSE
-  /\ ad = [pending |-> <<>>, unacked |-> {}, acked |-> {}, issued |-> {}, badack |-> 0, earlyack |-> 0, enq |-> {}, lost |-> {}, purged |-> {}, notified |-> 0]
+  /\ ad = [pending |-> <<>>, unacked |-> {}, acked |-> {}, issued |-> {}, badack |-> 0, earlyack |-> 0, enq |-> {}, lost |-> {}, purged |-> {}, notified |-> 0, unann |-> {}]
 
 -----------------------------------------------------------------------------
 (* One step per trace line *)
@@ -141,6 +141,7 @@ miscVars == <<lastExitAt, lastDeqAt, rr, rrPrev, crashed, raced, ad>>
 \* jobs submitted by a call: Add -> {job}; AddAll -> items
 SubmitSet(op, job, items) == IF op = "Add" THEN {job} ELSE IF op = "AddAll" THEN Range(items) ELSE {}
 StateChanging == {"Pause", "PauseAndWait", "Stop", "WaitAndStop", "Restart", "CancelCtx", "Resume"}
+Heavy == {"Stop", "WaitAndStop", "Restart", "Bind", "CancelCtx"}
 Unclean(pc) == IF pc.op = "none" THEN pc ELSE [pc EXCEPT !.clean = FALSE, !.solo = FALSE, !.ref = "unknown"]
 
 OnCall(e) ==
@@ -182,7 +183,10 @@ OnCall(e) ==
   /\ qclosed' = [q \in Queues |-> IF e.op = "QClose" /\ e.qi = q /\ qclosed[q] = "open" THEN "closing" ELSE qclosed[q]]
   /\ pcancel' = (pcancel \/ (e.op = "CancelCtx" /\ hdr.ctx))
   /\ U(<<ref, started>>)
-  /\ overlap' = (overlap \/ (e.op \in StateChanging \cup {"Bind"} /\ \E c \in Clients : pend[c].op \in StateChanging \cup {"Bind"}))
+  \* Stop / Restart / Bind / context cancellation overlapping another state-changing call: the combined effect of such
+  \* concurrent lifecycle calls is specified nowhere (the properties quantify over call sequences), nothing is concluded afterwards
+  /\ overlap' = (overlap \/ (e.op \in StateChanging \cup {"Bind"} /\ \E c \in Clients : pend[c].op \in StateChanging \cup {"Bind"}
+                                 /\ ({e.op, pend[c].op} \cap Heavy # {})))
   /\ U(<<addRet, enters, exits, enterAt, exitAt, deqd, closeNil, waitRet, lastRes, rank, consOf>>)
   /\ U(miscVars)
 
@@ -260,7 +264,10 @@ OnDeq(e) ==
 \* adapter calls (recording adapter): enq / deq / ack / purge
 OnAd(e) ==
   /\ ad' =
-       IF e.op = "enq" /\ e.ok THEN [ad EXCEPT !.pending = Append(@, e.eseq), !.enq = @ \cup {e.eseq}, !.notified = @ + (IF e.n > 0 THEN 1 ELSE 0)]
+       IF e.op = "enq" /\ e.ok THEN [ad EXCEPT !.pending = Append(@, e.eseq), !.enq = @ \cup {e.eseq}, !.notified = @ + (IF e.n > 0 THEN 1 ELSE 0),
+                                                \* an entry put into the adapter behind the worker's back (no Add, no subscriber told): nobody has
+                                                \* announced it, the worker owes it nothing until the next announcement
+                                                !.unann = IF e.job \notin Jobs /\ e.n = 0 THEN @ \cup {e.eseq} ELSE {}]
        ELSE IF e.op = "deq" /\ e.ok /\ e.ack = "" THEN          \* removed without an acknowledgement id: gone for good
             [ad EXCEPT !.pending = SelectSeq(@, LAMBDA x : x # e.eseq), !.lost = @ \cup {e.eseq}]
        ELSE IF e.op = "deq" /\ e.ok THEN
@@ -309,7 +316,7 @@ AllConsumed == TLCGet("stats").diameter - 1 = Len(Trace)
 IsRet(op) == E.ev = "ret" /\ E.op = op
 Quiescent == E.ev = "quiescent"
 \* the harness found the system at rest and the control history leaves no doubt that the worker is running
-RunningAtRest == Quiescent /\ ws = "running" /\ E.wss = "Running"
+RunningAtRest == Quiescent /\ ws = "running" /\ E.wss = "Running" /\ ~overlap
 NoUnknown == \A j \in Jobs : sub[j] # "unk" /\ sub[j] # "calling"
 
 ---- \* C01 exactly once / never
@@ -329,9 +336,11 @@ C02_Bound == Inflight # {} => Cardinality(Inflight) <= Max({concSince[j] : j \in
 C02_Peak == Quiescent => E.peak <= concMax
 
 ---- \* C03 progress (finite-trace form: at rest nothing accepted is left, nobody sleeps)
-C03_NoStall == RunningAtRest /\ NoUnknown => /\ E.pending = 0 /\ E.processing = 0
+\* entries put into an adapter behind the worker's back and not announced since (see OnAd)
+UnannPending == Cardinality({i \in DOMAIN ad.pending : ad.pending[i] \in ad.unann})
+C03_NoStall == RunningAtRest /\ NoUnknown => /\ E.pending = UnannPending /\ E.processing = 0
                                              /\ \A j \in Jobs : Accepted(j) /\ ~Excused(j) => exits[j] = 1
-C03_NoBlockedClient == RunningAtRest /\ NoUnknown => E.blocked = <<>>
+C03_NoBlockedClient == RunningAtRest /\ NoUnknown /\ UnannPending = 0 => E.blocked = <<>>
 C03_NoStuckProcessing == Quiescent => E.processing = 0 /\ Inflight = {}
 
 ---- \* C04 order
@@ -420,7 +429,7 @@ C11_AckAfter == ad.earlyack = 0
 \* every accepted entry is processed completely (acked after exit), or pending, or delivered-unacked
 C11_NoLoss == \A s \in ad.enq : (\E i \in DOMAIN ad.pending : ad.pending[i] = s) \/ (\E u \in ad.unacked \cup ad.acked : u[2] = s) \/ s \in ad.purged
 \* at rest a running worker has taken everything out of the adapter and acknowledged what it has run completely
-C11_Drained == RunningAtRest /\ NoUnknown /\ (\E q \in Queues : IsAdapterQ(q)) => ad.pending = <<>>
+C11_Drained == RunningAtRest /\ NoUnknown /\ (\E q \in Queues : IsAdapterQ(q)) => Range(ad.pending) \subseteq ad.unann
 \* recovery: entries already held by the adapter when the worker is bound are processed without any further call
 C11_Recovery == RunningAtRest => \A i \in DOMAIN hdr.preload : hdr.preload[i] \in Jobs => exits[hdr.preload[i]] >= 1
 
